@@ -460,6 +460,8 @@ func (w *World) genHistory(p HistParams) *History {
 		w.scenarioSideChains(h, deliver)
 	case "sharedtx":
 		w.scenarioSharedTx(h, deliver)
+	case "highlight":
+		w.scenarioHighLight(h, deliver)
 	}
 	if len(h.Ops) > 0 && h.Ops[len(h.Ops)-1].Dump == nil {
 		h.Ops[len(h.Ops)-1].Dump = w.dump(h.NUT)
@@ -1075,6 +1077,61 @@ func (w *World) scenarioSidePow(h *History, deliver func(*TNode) *Op) {
 	h.Stats["scenario-sidepow"]++
 }
 
+// scenarioHighLight: the node ends on a short heavy branch (blocks 100 ms apart: the difficulty climbs) while it also holds
+// a competing branch from the same parent that is HIGHER than its tip and lighter (blocks 15 s apart): stored blocks above
+// the top of the main chain that are on no main chain. Transactions ride on both branches.
+func (w *World) scenarioHighLight(h *History, deliver func(*TNode) *Op) {
+	base := w.nodeOfTop(h.NUT)
+	if base == nil || base.Snap == nil {
+		return
+	}
+	grow := func(from *TNode, n int, delta uint64, withTx bool) []*TNode {
+		var out []*TNode
+		cur := from
+		for i := 0; i < n; i++ {
+			spec := BlockSpec{TsDelta: delta, Recipient: w.wallets[i%len(w.wallets)].Addr}
+			if withTx && i%2 == 0 {
+				spec.Txs, spec.TxMeta, _ = w.genTxs(cur, 2, 0)
+			}
+			nb := w.build(cur, spec)
+			w.admit(nb)
+			if !nb.Valid {
+				nb = w.build(cur, BlockSpec{TsDelta: delta, Recipient: w.wallets[i%len(w.wallets)].Addr})
+				w.admit(nb)
+				if !nb.Valid {
+					break
+				}
+			}
+			out = append(out, nb)
+			cur = nb
+		}
+		return out
+	}
+	short := grow(base, 5, 100, true)
+	long := grow(base, 12, 15000, true)
+	if len(short) < 5 {
+		return
+	}
+	sEnd := short[len(short)-1]
+	// half of the light branch first (the node follows it), then the heavy branch (reorganisation), then more of the light
+	// branch for as long as it stays lighter
+	k := 0
+	for k < len(long) && k < 3 && long[k].Block.CumulativeDiff.Cmp(sEnd.Block.CumulativeDiff) < 0 {
+		deliver(long[k])
+		k++
+	}
+	for _, n := range short {
+		deliver(n)
+	}
+	for k < len(long) && long[k].Block.CumulativeDiff.Cmp(sEnd.Block.CumulativeDiff) < 0 {
+		deliver(long[k])
+		k++
+	}
+	if k > 0 && long[k-1].Block.Height > sEnd.Block.Height && w.nodeOfTop(h.NUT) == sEnd {
+		h.Stats["scenario-highlight"]++
+	}
+}
+
 // scenarioSideChains: a sibling block that was merge-mined with two other chains becomes a side block of the next
 // block; later blocks reference it again, unchanged and with its chain list in the other order (same base hash,
 // timestamp, nonces, mining blob and proof of work: the same side block). Both must be refused - its work is counted
@@ -1319,11 +1376,35 @@ func (w *World) replayOnLMDB(h *History) bool {
 		}
 		return nil
 	})
+	var lmem, mmem *blockchain.Mempool
+	ldb.View(func(txn adb.Txn) error { lmem = w.bc.GetMempool(txn); return nil })
 	w.bc.DB, w.bc.Index = h.NUT, memIndex
-	h.NUT.View(func(txn adb.Txn) error { mstats = w.bc.GetStats(txn); return nil })
+	h.NUT.View(func(txn adb.Txn) error { mstats = w.bc.GetStats(txn); mmem = w.bc.GetMempool(txn); return nil })
 	if lstats.TopHash != mstats.TopHash || lstats.TopHeight != mstats.TopHeight || !lstats.CumulativeDiff.Equals(mstats.CumulativeDiff) ||
-		lstats.StakedAmount != mstats.StakedAmount || len(lstats.Tips) != len(mstats.Tips) {
+		lstats.StakedAmount != mstats.StakedAmount || len(lstats.Tips) != len(mstats.Tips) || len(lstats.Orphans) != len(mstats.Orphans) {
 		same = false
+	}
+	// the alternative tips and orphans entry by entry, the mempool by transaction ids in order (expiry times are wall-clock)
+	for k, a := range lstats.Tips {
+		b, ok := mstats.Tips[k]
+		if !ok || a.Hash != b.Hash || a.Height != b.Height || !a.CumulativeDiff.Equals(b.CumulativeDiff) {
+			same = false
+		}
+	}
+	for k, a := range lstats.Orphans {
+		b, ok := mstats.Orphans[k]
+		if !ok || a.Hash != b.Hash || a.PrevHash != b.PrevHash {
+			same = false
+		}
+	}
+	if len(lmem.Entries) != len(mmem.Entries) {
+		same = false
+	} else {
+		for i := range lmem.Entries {
+			if lmem.Entries[i].TXID != mmem.Entries[i].TXID {
+				same = false
+			}
+		}
 	}
 	ldb.Close()
 	return same
